@@ -5,6 +5,9 @@ Finite grids enumerated completely on the Rust side (harness driver `host`):
      host -> script -> host for the type's own extremes; floats, bool, char, strings, Option, Result, Vec, tuples, maps, sets;
  (b) call protocol: registered functions of arity 0..3 called directly and through apply with every argument tuple of length 0..arity+1
      over a 9-value alphabet: accepted exactly when arity and kinds match, body entered exactly then;
+ (d) argument routing: a registered host function of every arity 0..16 (plain closure, &self method, &mut self method) called directly and
+     through apply with distinct values per position must receive the k-th argument in its k-th parameter; one argument too few / too many
+     must be an error with the body not entered;
  (c) lent references: the script stashes the reference lent by run_with_reference in 12 kinds of places; every later use must be an
      error, the host object's state must be unchanged by late uses, and a second lend must work."""
 import sys, json
@@ -40,7 +43,7 @@ def main(argv=None):
     cov = {"evaluations": res["checks"], "distinct_nontrivial": res["checks"],
            "rule": "complete finite grids: 10 integer types x ~20 boundary values (own extremes and those of the wider neighbours) x {script->host, "
                    "host->script->host}; float / bool / char / string / Option / Result / Vec / tuple / map / set cases; 4 function signatures x all "
-                   "argument tuples of length 0..arity+1 over 9 values x {direct call, apply}; 12 stash locations x 2 late uses of a lent reference; "
+                   "argument tuples of length 0..arity+1 over 9 values x {direct call, apply}; 47 host functions (arity 0..16 plain, 1..15 behind &self and &mut self) x 2 distinct-value assignments x {direct, apply} with the parameter vector seen by the host body compared position by position, plus arity-1 / arity+1 calls; 12 stash locations x 2 late uses of a lent reference; "
                    "each check compares an observed status/value/entry count with the expectation derived from Rust's own TryFrom",
            "samples": ["(id-u8 256) => ERR, body not entered", "(apply f2 (list 1 \"s\" #t)) => ERR, body not entered",
                        "stash *ext* in a closure during run_with_reference, call it afterwards => ERR"],
